@@ -160,7 +160,78 @@ func HarnessC02Slow(wcap int) {
 	verifrt.Cover("end", true)
 }
 
+// bigBulk: a bulk reply of n payload bytes: a concrete repeating pattern that differs per reply
+// (so that bytes of one reply showing up in another are visible) with arbitrary bytes at the first,
+// middle and last position.
+func bigBulk(n int, fill byte, label string) []byte {
+	p := make([]byte, n)
+	for i := range p {
+		p[i] = fill + byte(i%23)
+	}
+	if n > 0 {
+		p[0] = verifrt.Byte(label)
+		p[n/2] = verifrt.Byte(label)
+		p[n-1] = verifrt.Byte(label)
+	}
+	return bulk(p)
+}
+
+// HarnessBig: replies of n payload bytes (kilobytes: larger than the read buffer, the static part of
+// the outbound buffer and any internal size threshold of that order).
+//   mode 0: pipeline GET ka (node B), GET kb (node A); A answers first with the big reply, then B
+//           answers (n2 bytes): the client receives reply(ka) then reply(kb), byte-exact  [C01, C02, C03]
+//   mode 1: one GET answered with the big reply while the client reads slowly: the socket accepts a
+//           solver-chosen amount at first and the backlog is drained in 4 KiB steps            [C02, C19]
+//   rcap: size of the event loop's read buffer (production: 64 KiB)
+func HarnessBig(mode, n, n2, rcap int) {
+	o := core.VerifDefaultOptions()
+	o.ReadBufferCap = rcap
+	w, _ := verifWorld2(o)
+	c := w.NewClient("10.0.0.1:5000")
+	ka := []byte{'{', 'a', '}', verifrt.Byte("key")} // node B
+	kb := []byte{'{', 'b', '}', verifrt.Byte("key")} // node A
+	if mode == 0 {
+		w.Feed(c, append(core.VerifEncode([]byte("get"), ka), core.VerifEncode([]byte("get"), kb)...))
+		w.RunTasks()
+		verifrt.Assert(len(w.ByAddr["A:1"]) == 1 && len(w.ByAddr["B:1"]) == 1, "both_nodes_contacted")
+		A, B := w.ByAddr["A:1"][0], w.ByAddr["B:1"][0]
+		rb := bigBulk(n, 'A', "vb")
+		ra := bigBulk(n2, 'a', "va")
+		w.FeedAll(A, rb)
+		verifrt.Assert(len(w.Sent(c)) == 0, "later_reply_waits_for_the_earlier_request")
+		w.FeedAll(B, ra)
+		out := w.Sent(c)
+		want := append(append([]byte{}, ra...), rb...)
+		verifrt.ObserveInt("client_bytes", len(out))
+		verifrt.Assert(len(out) == len(want), "both_replies_complete_in_request_order")
+		verifrt.Assert(verifBytesEq(out, want), "both_replies_byte_exact_in_request_order")
+		verifrt.Assert(c.Opened() && !w.Shutdown && c.InMsgCount() == 0, "connection_open_queue_empty")
+		verifrt.Cover("end", true)
+		return
+	}
+	w.Feed(c, core.VerifEncode([]byte("get"), kb))
+	w.RunTasks()
+	A := w.ByAddr["A:1"][0]
+	rb := bigBulk(n, 'A', "vb")
+	first := []int{0, 1, 255, 256, 257, n / 2, n + 2}[verifrt.Choice("socket_accepts_at_first", 7)]
+	verifrt.LimitWrites(c.Fd, first)
+	w.FeedAll(A, rb)
+	for i := 0; i < 2*(n/4096+2) && c.OutboundBuffered() > 0; i++ {
+		verifrt.LimitWrites(c.Fd, 4096)
+		w.Writable(c)
+	}
+	verifrt.LimitWrites(c.Fd, -1)
+	w.Writable(c)
+	out := w.Sent(c)
+	verifrt.ObserveInt("client_bytes", len(out))
+	verifrt.Assert(len(out) == len(rb), "slow_reader_gets_the_whole_reply")
+	verifrt.Assert(verifBytesEq(out, rb), "slow_reader_gets_the_reply_byte_exact")
+	verifrt.Assert(c.OutboundBuffered() == 0 && c.Opened(), "backlog_drained_connection_open")
+	verifrt.Cover("end", true)
+}
+
 func init() {
+	verifrt.Register("HarnessBig", func(p []int64) { HarnessBig(int(p[0]), int(p[1]), int(p[2]), int(p[3])) })
 	verifrt.Register("HarnessC02Slow", func(p []int64) { HarnessC02Slow(int(p[0])) })
 	verifrt.Register("HarnessC02Rsp", func(p []int64) { HarnessC02Rsp(int(p[0]), int(p[1]), int(p[2])) })
 }
